@@ -1,7 +1,7 @@
 (* Proofs about Model/Prom.v, part 4: the C17 statements, assembled from the
    system invariant (PromSysP) and the per-object lemmas (PromObjP). *)
 From Coq Require Import ZArith List Bool Lia Arith.
-From Tally Require Import Base.Obs Base.Search Model.Buckets Model.Prom
+From Tally Require Import Base.ObsCore Base.Search Model.Buckets Model.Prom
   Proof.PromP Proof.PromObjP Proof.PromSysP.
 Import ListNotations.
 Open Scope Z_scope.
